@@ -68,6 +68,8 @@ def _eq_laws(ctx, comp):
     treemodel.report(ctx, "C20/EQ-LAWS", treemodel.explore_eq,
                      "reflexive, symmetric, order-insensitive, total, distinguishing",
                      eq.loc(), 400)
+    treemodel.report(ctx, "C20/COPY", treemodel.explore_copy,
+                     "deep copies are equal, separate and serialise identically", comp.loc(), 10)
 
 
 # ---------------------------------------------------------------------------
